@@ -326,7 +326,6 @@ func ctGenTable() []ctOp {
 	return ops
 }
 
-
 // CTOps zips the generators above with the run-only table of package ctops (by name, in
 // ctops' order); a name without a generator is a harness bug and panics at start-up.
 func CTOps() []ctOp {
